@@ -499,7 +499,8 @@ impl World {
                 let i = pick(*s, self.txs.len());
                 let h = self.txs.remove(i);
                 let mut fds = [0i32; 2];
-                if unsafe { libc::pipe2(fds.as_mut_ptr(), libc::O_CLOEXEC) } != 0 {
+                let mut ready = [0i32; 2];
+                if unsafe { libc::pipe2(fds.as_mut_ptr(), libc::O_CLOEXEC) } != 0 || unsafe { libc::pipe2(ready.as_mut_ptr(), libc::O_CLOEXEC) } != 0 {
                     return Err(Failure::inconclusive("pipe2 failed"));
                 }
                 let pid = unsafe { libc::fork() };
@@ -510,12 +511,16 @@ impl World {
                     // child: keep exactly this one handle, let go of every inherited copy
                     unsafe { libc::prctl(libc::PR_SET_PDEATHSIG, libc::SIGKILL) };
                     crate::interpose::raw_close(fds[1]);
+                    crate::interpose::raw_close(ready[0]);
                     let keep = h.real;
                     self.txs.clear();
                     self.rxs.clear();
                     self.regions.clear();
                     self.sets.clear();
                     self.remotes.clear();
+                    // tell the parent that every inherited copy has been let go
+                    unsafe { libc::write(ready[1], b"r".as_ptr() as *const libc::c_void, 1) };
+                    crate::interpose::raw_close(ready[1]);
                     let mut b = [0u8; 1];
                     loop {
                         let n = unsafe { libc::read(fds[0], b.as_mut_ptr() as *mut libc::c_void, 1) };
@@ -527,6 +532,17 @@ impl World {
                     unsafe { libc::_exit(0) };
                 }
                 crate::interpose::raw_close(fds[0]);
+                crate::interpose::raw_close(ready[1]);
+                // the child inherited a copy of every descriptor: wait until it has closed all but
+                // the moved handle, otherwise "the receiver is gone" would not yet be true
+                let mut b = [0u8; 1];
+                loop {
+                    let n = unsafe { libc::read(ready[0], b.as_mut_ptr() as *mut libc::c_void, 1) };
+                    if n >= 0 || unsafe { *libc::__errno_location() } != libc::EINTR {
+                        break;
+                    }
+                }
+                crate::interpose::raw_close(ready[0]);
                 let chan = h.chan;
                 drop(h.real); // the parent's copy of the moved handle
                 use std::os::unix::io::FromRawFd;
